@@ -5,6 +5,7 @@
 //   kind 3  VH::normalScore
 //   kind 4  AnamEmpirical    normal-score fit, forward / backward
 //   kind 5  Rotation         setAngles / setMatrixDirect, rotateDirect then rotateInverse
+//   kind 6  hermiteCondExpElement(y, s, psi)   (run under AddressSanitizer by the check)
 #include "sx.hpp"
 #include <sstream>
 #define private public
@@ -108,7 +109,7 @@ static std::string runAnamHermite(const Sx& c) {
   Db* db = Db::createFromSamples(n, ELoadBy::COLUMN, tab, names, locs, false);
   AnamHermite anam(nbpoly, flagBound);
   int rc = 0;
-  if (mode == 0) rc = anam.fit(db, "z");
+  if (mode == 0) { try { rc = anam.fit(db, "z"); } catch (const std::exception& e) { rc = -2; } }
   else {
     VectorDouble b = c[9].vd(TEST);
     anam.reset(b[0], b[1], b[2], b[3], b[4], b[5], b[6], b[7], 1., c[8].vd());
@@ -142,18 +143,40 @@ static std::string runAnamHermite(const Sx& c) {
   return o.str();
 }
 
-// (3 data wt)
+// (3 data wt sel)
 static std::string runNormalScore(const Sx& c) {
   VectorDouble data = c[1].vd(TEST), wt = c[2].vd(TEST);
   VectorDouble s = VH::normalScore(data, wt);
-  return "(" + vecStr(s) + " " + std::to_string((int) s.size()) + ")";
+  std::ostringstream o;
+  o << "(" << vecStr(s) << " " << (int) s.size();
+  if (c.size() > 3 && c[3].size() > 0) {
+    // Db level (AAnam::normalScore) with a selection, and the vector-level answer on the active samples only
+    int n = (int) data.size();
+    VectorDouble tab = data; VectorString names = {"z"}, locs = {"z1"};
+    if (!wt.empty()) { tab.insert(tab.end(), wt.begin(), wt.end()); names.push_back("w"); locs.push_back("w1"); }
+    VectorDouble masked = data;
+    int k = 0;
+    for (auto& x : c[3].l) { tab.push_back(x.b() ? 1. : 0.); if (!x.b()) masked[k] = TEST; k++; }
+    names.push_back("sel"); locs.push_back("sel");
+    Db* db = Db::createFromSamples(n, ELoadBy::COLUMN, tab, names, locs, false);
+    AnamHermite anam(3);
+    int nc0 = db->getColumnNumber();
+    int rc = anam.normalScore(db, "z");
+    o << " " << rc << " " << ((rc == 0 && db->getColumnNumber() > nc0) ? colStr(db, db->getColumnNumber() - 1) : std::string("()"));
+    VectorDouble ref = VH::normalScore(masked, wt);
+    o << " " << vecStr(ref);
+    delete db;
+  }
+  o << ")";
+  return o.str();
 }
 
 // (4 data yq zq)
 static std::string runAnamEmpirical(const Sx& c) {
   VectorDouble data = c[1].vd(TEST);
   AnamEmpirical anam;
-  int rc = anam.fitFromArray(data);
+  int rc;
+  try { rc = anam.fitFromArray(data); } catch (const std::exception& e) { rc = -2; }   // constant data: Interval::init throws
   std::ostringstream o; o << "(" << rc;
   if (rc != 0 || anam.getNDisc() <= 0) { o << ")"; return o.str(); }
   o << " " << vecStr(anam.getZDisc()) << " " << vecStr(anam.getYDisc());
@@ -191,6 +214,7 @@ static std::string run(const Sx& c) {
   if (kind == 3) return runNormalScore(c);
   if (kind == 4) return runAnamEmpirical(c);
   if (kind == 5) return runRotation(c);
+  if (kind == 6) { std::ostringstream o; o << "(" << sx_d(hermiteCondExpElement(c[1].d(), c[2].d(), c[3].vd())) << ")"; return o.str(); }   // (6 y s psi)
   return "(-997 1)";
 }
 int main(int argc, char** argv) { return sx_main(argc, argv, run); }
